@@ -119,6 +119,7 @@ class Engine(object):
         self.math_calls = []
         self.exact_floats = False
         self.float_bound = 'absolute'
+        self.symdict = None
         self._model = None
 
     # ------------------------------------------------------------------ solver
